@@ -244,23 +244,53 @@ def perseusOp : P String := do
 
 /-! ### SARSOP / GapMin: snapshots and returned tuples -/
 
+/-- the model has a positive transition / observation probability (or product) at or below the library's `equalToleranceSmall`: the
+    1e-6 cut-offs of `GapMin::makeNewPomdp`, `LPInterpolation` and `bestPromisingAction` drop mass that is really there -/
+def tinyModel (m : POMDP) : Bool :=
+  let θ := Gen.equalToleranceSmall
+  (List.range m.A).any (fun a => (List.range m.S).any (fun s => (List.range m.S).any (fun s1 =>
+    (decide (0 < m.T s a s1) && decide (m.T s a s1 ≤ θ)) ||
+    (List.range m.O).any (fun o => (decide (0 < m.Ob s1 a o) && decide (m.Ob s1 a o ≤ θ)) ||
+      (decide (0 < m.T s a s1 * m.Ob s1 a o) && decide (m.T s a s1 * m.Ob s1 a o ≤ θ))))))
+
+/-- the slack `anytimeT_sound` (Props/C03Trunc) proves sufficient for the cut-offs: `e = C·D/(1−γ)` with `C = max(0, max R)/(1−γ)` (bounds `H L`),
+    `D = O·(S+N)·θ` (mass dropped per pseudo-state and action: `truncW_residual` over `S+N` pseudo-states, zero-state classification) -/
+def cutSlack (m : POMDP) (npts : Nat) : Rat :=
+  let rmax := let r := maxRall m; if r < 0 then 0 else r
+  truncSlack m.γ (rmax / (1 - m.γ)) ((m.O : Rat) * ((m.S + npts : Nat) : Rat) * Gen.equalToleranceSmall)
+
+/-- an upper-bound clause `ref ≤ val`: fine within the float slack; within the proved cut-off slack on a model with sub-threshold
+    probabilities it is the (recorded) cut-off defect and named so; anything else is the plain failure -/
+def ubKind (kind : String) (tiny : Bool) (eps cut l val : Rat) : Option String :=
+  if decide (l ≤ val + eps) then none
+  else if tiny && decide (l ≤ val + eps + cut) then some (kind ++ "_within_proved_cutoff_slack")
+  else some kind
+
 /-- clauses common to a snapshot and a returned tuple -/
-def boundClauses (comp : String) (m : POMDP) (r : Refs) (b0 : Vec) (lb ub : Rat) (vl : Array VE) (Q : Mat) (pts : Array (Vec × Rat)) (v : Verdict) : Verdict :=
+def boundClauses (comp : String) (m : POMDP) (r : Refs) (b0 : Vec) (lb ub : Rat) (vl : Array VE) (Q : Mat) (pts : Array (Vec × Rat)) (npts : Nat) (v : Verdict) : Verdict :=
   let eps := epsOf m
+  let tiny := tinyModel m
+  let cut := if tiny then cutSlack m npts else 0
   let u0 := r.U b0
   let l0 := r.L b0
   let v := v.failIf (!(decide (lb ≤ u0 + eps))) s!"{comp} lb_above_optimal_value lb={ratStr lb} ref={ratStr u0}"
-  let v := v.failIf (!(decide (l0 ≤ ub + eps))) s!"{comp} ub_below_optimal_value ub={ratStr ub} ref={ratStr l0}"
-  let v := v.failIf (!(decide (lb ≤ ub + eps))) s!"{comp} lb_above_ub lb={ratStr lb} ub={ratStr ub}"
+  let v := match ubKind "ub_below_optimal_value" tiny eps cut l0 ub with
+    | some k => v.failIf true s!"{comp} {k} ub={ratStr ub} ref={ratStr l0}"
+    | none => v
+  let v := v.failIf (!(decide (lb ≤ ub + eps + cut))) s!"{comp} lb_above_ub lb={ratStr lb} ub={ratStr ub}"
   let ps := probes m b0
   let resV := vecAbove m (vl.toList.map (·.values)) (ps.map (fun x => (x, r.U x))) eps
   let v := v.failIf resV.isSome s!"{comp} lb_vector_above_optimal_value {resV.getD ""}"
-  let resQ := firstSome ps (fun x => let l := r.L x; if decide (l ≤ basicValV m Q x + eps) then none else some s!"ubQ(x)={ratStr (basicValV m Q x)} ref={ratStr l} x={showVec x}")
-  let v := v.failIf resQ.isSome s!"{comp} ubQ_below_optimal_value {resQ.getD ""}"
+  let resQ := firstSome ps (fun x => let l := r.L x; match ubKind "ubQ_below_optimal_value" tiny eps cut l (basicValV m Q x) with
+    | some k => some (k, s!"ubQ(x)={ratStr (basicValV m Q x)} ref={ratStr l} x={showVec x}")
+    | none => none)
+  let v := match resQ with | some (k, d) => v.failIf true s!"{comp} {k} {d}" | none => v
   let resP := firstSome (pts.toList.take 6) (fun (p, val) =>
     if !(isBelief m.S p) then none else
-    let l := r.L p; if decide (l ≤ val + eps) then none else some s!"point={showVec p} value={ratStr val} ref={ratStr l}")
-  v.failIf resP.isSome s!"{comp} ubV_point_below_optimal_value {resP.getD ""}"
+    let l := r.L p; match ubKind "ubV_point_below_optimal_value" tiny eps cut l val with
+    | some k => some (k, s!"point={showVec p} value={ratStr val} ref={ratStr l}")
+    | none => none)
+  match resP with | some (k, d) => v.failIf true s!"{comp} {k} {d}" | none => v
 
 def matRows (Q : Mat) : List (List Rat) := Q.toList.map (·.toList)
 
@@ -388,7 +418,7 @@ def snapOp : P String := do
   let r := mkRefs m 30 150
   let eps := epsOf m
   let v : Verdict := { tag := s!"snap_{algo}" ++ (if it == 0 then " first" else "") }
-  let v := boundClauses algo m r b0 lb ub vl Q pts v
+  let v := boundClauses algo m r b0 lb ub vl Q pts pts.size v
   -- GapMin's lb is the value of its vector set at the initial belief
   let v := if algo == "GapMin" && vl.size > 0 then
       let best := maxTo (vl.size - 1) (fun i => dotV m.S b0 (veVals vl i))
@@ -444,7 +474,7 @@ def finalOp : P String := do
   if clampActive m then return "skip clamp_active"
   let r := mkRefs m 40 400
   let v : Verdict := { tag := s!"final_{algo}" ++ (if bs then " budget_stop" else " converged") }
-  return (boundClauses algo m r b0 lb ub vl Q #[] v).render
+  return (boundClauses algo m r b0 lb ub vl Q #[] 100 v).render
 
 /-! ### look-ahead kernels -/
 
